@@ -14,6 +14,7 @@
 (*   - emits the case with the predicted outcomes for replay on the library.  *)
 (***************************************************************************)
 EXTENDS ParseMachine, TLC, Json, BigCases
+SX == INSTANCE SequencesExt
 
 CONSTANTS U,          \* name of the universe
           MaxUnits,   \* how many units a case may have
@@ -122,9 +123,18 @@ TableSample == {1, 31, 32, 33, 35, 47, 91, 93, 127, 128, 194, 224, 226, 237, 239
 ByteWise == \A c \in TableSample : \A d \in TableSample : \A e \in {9, 97, 169, 255} :
               (CopyByte(c) /\ CopyByte(d) /\ CopyByte(e)) =>
                  LET r == ParseBuf(QLit(<<c, d, e>>), FALSE) IN r.ok /\ r.end = 5 /\ StrictEq(r.v, VStr(<<c, d, e>>))
+\* units of a string body that are decoded on their own (escapes, a surrogate pair, raw UTF-8): a body made of such units decodes to the
+\* concatenation of their decodings (checked on all pairs); the driver repeats them thousands of times (scale cases)
+ScaleCand == StrUnits \cup {<<92, 117, 100, 56, 51, 100, 92, 117, 100, 101, 48, 48>>, <<92, 117, 48, 48, 52, 49>>, <<92, 117, 50, 48, 97, 99>>, <<92, 117, 68, 53, 53, 56>>, <<226, 130, 172>>}
+DecOf(u) == ParseBuf(QLit(u), FALSE)
+ScaleUnits == {u \in ScaleCand : DecOf(u).ok /\ DecOf(u).end = Len(u) + 2 /\ DecOf(u).v.t = "str" /\ DecOf(u).v.s # <<>> /\ u # <<34>>}
+UnitWise == \A u1 \in ScaleUnits : \A u2 \in ScaleUnits :
+              LET r == DecOf(u1 \o u2) IN r.ok /\ r.end = Len(u1) + Len(u2) + 2 /\ r.v.s = DecOf(u1).v.s \o DecOf(u2).v.s
+UnitTable == LET us == SX!SetToSeq(ScaleUnits) IN [i \in DOMAIN us |-> <<us[i], DecOf(us[i]).v.s>>]
 EmitTable == /\ Assert(ByteWise, "the string decoder is not byte-wise on copied bytes")
+             /\ Assert(UnitWise, "the string decoder is not unit-wise on escapes")
              /\ Assert(\A c \in 1..255 : CopyByte(c) <=> c \notin {34, 92}, "unexpected copy set")
-             /\ (Emit => PrintT(ToJson(<<"Y", [c \in 1..255 |-> IF CopyByte(c) THEN 1 ELSE 0], [c \in 1..255 |-> IF ValidByte(c) THEN 1 ELSE 0]>>)))
+             /\ (Emit => PrintT(ToJson(<<"Y", [c \in 1..255 |-> IF CopyByte(c) THEN 1 ELSE 0], [c \in 1..255 |-> IF ValidByte(c) THEN 1 ELSE 0], UnitTable>>)))
 
 InvCase ==
   /\ (U = "strtable") => EmitTable
